@@ -6,6 +6,52 @@ package jd
 
 func vNum() JsonNode { return jsonNumber(vF64()) }
 
+// vLeafK: a scalar of solver-chosen kind (number, short string, bool, null).
+func vLeafK() JsonNode {
+	switch vChoice(4) {
+	case 0:
+		return jsonNumber(vF64())
+	case 1:
+		return jsonString(vStrA(vParam("STRLEN", 1)))
+	case 2:
+		return jsonBool(vBool())
+	default:
+		return jsonNull(nil)
+	}
+}
+
+// vNestElem: number, small array of numbers, one-key object or empty object.
+func vNestElem() JsonNode {
+	switch vChoice(3 + vParam("EMPTYOBJ", 0)) {
+	case 0:
+		return vNum()
+	case 1:
+		return vNumArray(vParam("INNER", 1))
+	case 2:
+		return jsonObject{"k": vNum()}
+	default:
+		return jsonObject{}
+	}
+}
+
+func vNestArray(maxLen int) jsonArray {
+	n := vChoice(maxLen + 1)
+	a := make(jsonArray, n)
+	for i := range a {
+		a[i] = vNestElem()
+	}
+	return a
+}
+
+func vKindArray(maxLen int) jsonArray {
+	n := vChoice(maxLen + 1)
+	a := make(jsonArray, n)
+	for i := range a {
+		a[i] = vLeafK()
+	}
+	return a
+}
+
 func vNumArray(maxLen int) jsonArray {
 	n := vChoice(maxLen + 1)
 	a := make(jsonArray, n)
@@ -22,6 +68,9 @@ const (
 	mSetkeys
 	mMerge
 	mPrecision
+	mSetSetkeys // SET + Setkeys("id"): what the v1 CLI builds for -set -setkeys id
+	mMultisetMerge
+	mSetMerge
 	mCount
 )
 
@@ -37,19 +86,25 @@ func vMeta(k int, eps float64) []Metadata {
 		return []Metadata{MERGE}
 	case mPrecision:
 		return []Metadata{SetPrecision(eps)}
+	case mSetSetkeys:
+		return []Metadata{SET, Setkeys("id")}
+	case mMultisetMerge:
+		return []Metadata{MULTISET, MERGE}
+	case mSetMerge:
+		return []Metadata{SET, MERGE}
 	}
 	return []Metadata{}
 }
 
 func metaName(k int) string {
-	return [...]string{"none", "set", "multiset", "setkeys", "merge", "precision"}[k]
+	return [...]string{"none", "set", "multiset", "setkeys", "merge", "precision", "set+setkeys", "multiset+merge", "set+merge"}[k]
 }
 
 func metaMode(k int) int {
 	switch k {
-	case mSet, mSetkeys:
+	case mSet, mSetSetkeys, mSetMerge:
 		return modeSet
-	case mMultiset:
+	case mMultiset, mMultisetMerge:
 		return modeMultiset
 	}
 	return modeList
@@ -182,7 +237,7 @@ func vHasNull(n JsonNode) bool {
 }
 
 func vObsLabel(k int, l string) string {
-	if k == mNone || k == mMerge || k == mPrecision {
+	if k == mNone || k == mMerge || k == mPrecision || k == mSetkeys {
 		return l
 	}
 	return "~" + l
